@@ -81,6 +81,7 @@ def mark_leaves(e: E, exp, nsmap_stack=None):
     leaves = [x for x in exp.content if isinstance(x, ir.XLeaf)]
     e.info["cls"] = exp.cls
     e.info["nil"] = exp.nil
+    e.info["wrapper"] = getattr(exp, "wrapper", False)
     e.info["attr_types"] = {}
     if leaves and not kids and len(exp.content) == 1:
         leaf = leaves[0]
